@@ -159,7 +159,7 @@ pub fn page(cx: &Cx, w: u32, h: u32) -> Page<'static> {
                     return p;
                 }
             }
-            let bytes = cx.bytes(padded_page_len(w, h));
+            let bytes = payload(cx, padded_page_len(w, h));
             match Page::from_bytes(w, h, bytes) {
                 Ok(p) => p,
                 Err(_) => {
@@ -189,6 +189,30 @@ pub fn pages(cx: &Cx, t: SignType, max: u64) -> Vec<Page<'static>> {
         }
     }
     out
+}
+
+/// Payload bytes: random mostly; one time in eight a single repeated byte (all-zero, all-0xFF, a
+/// byte that is also a protocol constant), one time in eight random bytes salted with such constants
+/// (':' CR LF, the chunk size, 0x00, 0xFF). Content-dependent shortcuts in the code under test meet
+/// exactly the content they look for.
+pub fn payload(cx: &Cx, n: usize) -> Vec<u8> {
+    const SPECIAL: [u8; 10] = [0x00, 0xFF, 0x3A, 0x0D, 0x0A, 0x10, 0x7F, 0x80, 0x55, 0x0F];
+    match cx.draw(8) {
+        7 => {
+            cx.probe("payload_of_one_repeated_byte");
+            vec![*cx.pick(&SPECIAL); n]
+        }
+        6 => {
+            let mut b = cx.bytes(n);
+            for x in b.iter_mut() {
+                if cx.chance(1, 3) {
+                    *x = *cx.pick(&SPECIAL);
+                }
+            }
+            b
+        }
+        _ => cx.bytes(n),
+    }
 }
 
 pub fn data(bytes: Vec<u8>) -> Data<'static> {
@@ -240,7 +264,7 @@ pub fn unknown_frame(cx: &Cx) -> Frame<'static> {
     loop {
         let ty = *cx.pick(&[7u8, 0, 1, 2, 3, 4, 5, 6, 0x80, 0xFF]);
         let len = *cx.pick(&[0usize, 1, 2, 3, 16, 255]);
-        let f = Frame::new(address(cx), MsgType(ty), data(cx.bytes(len)));
+        let f = Frame::new(address(cx), MsgType(ty), data(payload(cx, len)));
         if matches!(Message::from(f.clone()), Message::Unknown(_)) {
             return f;
         }
@@ -285,6 +309,13 @@ pub fn config_block(cx: &Cx) -> Vec<u8> {
                 for i in 5..9 {
                     b[i] = 128 + (b[i] & 0x7F);
                 }
+            } else if cx.chance(1, 2) {
+                // small panels with an empty slot somewhere in the list (also before a used one)
+                for i in 5..9 {
+                    b[i] &= 0x0F;
+                }
+                b[5 + cx.draw(4) as usize] = 0;
+                b[4] = 1 + (b[4] & 0x0F);
             }
             b
         }
@@ -359,7 +390,7 @@ pub fn raw_message(cx: &Cx, addrs: &[Address]) -> Message<'static> {
         3 => {
             let off = if cx.chance(1, 2) { 0 } else if cx.chance(1, 2) { 16 } else { cx.draw(0x1_0000) as u16 };
             let n = chunk_len(cx);
-            Message::SendData(Offset(off), data(cx.bytes(n)))
+            Message::SendData(Offset(off), data(payload(cx, n)))
         }
         4 => Message::DataChunksSent(ChunkCount(cx.draw(8) as u16)),
         5 => Message::PixelsComplete(addr(cx)),
